@@ -168,8 +168,31 @@ def run_one(ctx, rng, cands, d, status):
                 e3['WAYLAND_DEBUG'] = rng.choice(['server', '0', '', 'client', '1'])
                 sname += '+outer-WAYLAND_DEBUG=%s' % e3['WAYLAND_DEBUG']
                 ctx.count('runs_with_outer_wayland_debug')
+            # how the program is named: an absolute path and a script (the usual case), a bare name found on PATH, or one word whose
+            # path has blanks and quotes in it and that gets no arguments at all
+            prog = ['/venv/bin/python', os.path.join(HELPERS, 'child.py')]
+            how = rng.random()
+            if how < 0.2:
+                bindir = os.path.join(d, 'bin')
+                os.makedirs(bindir, exist_ok=True)
+                if not os.path.lexists(os.path.join(bindir, 'vq-python')):
+                    os.symlink(os.path.realpath('/venv/bin/python'), os.path.join(bindir, 'vq-python'))
+                e3['PATH'] = bindir + os.pathsep + e3.get('PATH', '')
+                prog = ['vq-python', os.path.join(HELPERS, 'child.py')]
+                sname += '+bare-name-on-PATH'
+            elif how < 0.4:
+                odd = os.path.join(d, rng.choice(['my prog', "it's", 'a"b', 'back\\slash', 'tab\there', 'x y  z']))
+                os.makedirs(odd, exist_ok=True)
+                script = os.path.join(odd, rng.choice(['run me', "child's", 'prog']))
+                with open(script, 'w') as f:
+                    f.write('#!/bin/sh\nexec /venv/bin/python %s "$@"\n' % os.path.join(HELPERS, 'child.py'))
+                os.chmod(script, 0o755)
+                prog = [script]
+                if rng.random() < 0.6:
+                    words = []
+                sname += '+one-word-odd-path'
             with open(outf, 'wb') as of:
-                r = subprocess.run(main + pre_opts + [rng.choice(['-r', '--run']), '/venv/bin/python', os.path.join(HELPERS, 'child.py')] + words,
+                r = subprocess.run(main + pre_opts + [rng.choice(['-r', '--run'])] + prog + words,
                                    input=b'quit\n', stdout=of, stderr=subprocess.PIPE, timeout=300, env=e3)
             ctx.ev()
             ctx.count('processes')
@@ -187,6 +210,8 @@ def run_one(ctx, rng, cands, d, status):
                 return
             repd = json.load(open(report))
             st = os.stat(outf)
+            if prog[0] == 'vq-python' and repd.get('argv0') != 'vq-python':
+                ctx.violation('run-argv', 'the program was named %r on the command line and started as %r' % (prog[0], repd.get('argv0')), dict(case, **sched))
             if repd['argv'] != words:
                 ctx.violation('run-argv', 'child got %r, forwarded words are %r' % (repd['argv'], words), dict(case, **sched))
             if repd['WAYLAND_DEBUG'] != '1':
